@@ -105,8 +105,8 @@ type sdObs struct {
 	exit     time.Duration
 	exitCode int
 	reqs     []sdReqObs
-	sigs     []string // the signals as sent: kind@actual offset (and whether the process was still there)
-	syncNote string   // how the synchronised completions were released
+	sigs     []string        // the signals as sent: kind@actual offset (and whether the process was still there)
+	syncNote string          // how the synchronised completions were released
 	sigAt    []time.Duration // actual instants of the signals, relative to the planned instant of the first
 	err      string
 	log      string
